@@ -3,4 +3,422 @@ import TinyHttpModel.Lts.Seq
 import TinyHttpModel.Req
 import TinyHttpModel.WireSpec
 namespace TH
+
+/-! ## Seq LTS: the order invariant -/
+namespace Lts.Seq
+
+theorem getD_of_le (l : List W) (i : Nat) (h : l.length ≤ i) : l.getD i {} = {} := by
+  simp [List.getD_eq_getElem?_getD, List.getElem?_eq_none h]
+
+theorem getD_set (l : List W) (i j : Nat) (a : W) :
+    (l.set i a).getD j {} = if i = j ∧ i < l.length then a else l.getD j {} := by
+  simp only [List.getD_eq_getElem?_getD, List.getElem?_set]
+  by_cases hij : i = j
+  · subst hij
+    by_cases hi : i < l.length
+    · simp [hi]
+    · simp [hi]
+  · simp [hij]
+
+theorem getD_append_left (l : List W) (a : W) (j : Nat) (h : j < l.length) :
+    (l ++ [a]).getD j {} = l.getD j {} := by
+  simp [List.getD_eq_getElem?_getD, List.getElem?_append_left h]
+
+theorem getD_append_default (l : List W) (j : Nat) :
+    (l ++ [({} : W)]).getD j {} = l.getD j {} := by
+  by_cases h : j < l.length
+  · exact getD_append_left l {} j h
+  · have h' : l.length ≤ j := Nat.le_of_not_lt h
+    rw [getD_of_le l j h']
+    simp only [List.getD_eq_getElem?_getD]
+    by_cases h2 : j = l.length
+    · subst h2; simp
+    · have : (l ++ [({} : W)]).length ≤ j := by simp; omega
+      simp [List.getElem?_eq_none this]
+
+theorem isDropped_lt {s : State} {i : Nat} (h : isDropped s i = true) : i < s.writers.length := by
+  unfold isDropped at h
+  by_cases hi : i < s.writers.length
+  · exact hi
+  · rw [getD_of_le _ _ (Nat.le_of_not_lt hi)] at h
+    cases h
+
+/-- all blocks empty ⇒ the concatenation is empty -/
+theorem flatten_submitted_nil (l : List W) (h : ∀ k, k < l.length → (l.getD k {}).submitted = []) :
+    (l.map (·.submitted)).flatten = [] := by
+  induction l with
+  | nil => rfl
+  | cons a t ih =>
+    have h0 : a.submitted = [] := by simpa using h 0 (by simp)
+    have ht : ∀ k, k < t.length → (t.getD k {}).submitted = [] := by
+      intro k hk
+      have := h (k + 1) (by simp; omega)
+      simpa using this
+    simp [h0, ih ht]
+
+/-- appending to block `i` when all later blocks are empty appends at the very end -/
+theorem flatten_set_append (l : List W) (i : Nat) (hi : i < l.length) (bs : List Nat)
+    (hl : ∀ k, i < k → k < l.length → (l.getD k {}).submitted = []) :
+    ((l.set i { (l.getD i {}) with submitted := (l.getD i {}).submitted ++ bs }).map (·.submitted)).flatten
+      = (l.map (·.submitted)).flatten ++ bs := by
+  induction l generalizing i with
+  | nil => simp at hi
+  | cons a t ih =>
+    cases i with
+    | zero =>
+      have ht : (t.map (·.submitted)).flatten = [] := by
+        apply flatten_submitted_nil
+        intro k hk
+        have := hl (k + 1) (by omega) (by simp; omega)
+        simpa using this
+      simp [ht]
+    | succ i =>
+      have hi' : i < t.length := by simpa using hi
+      have := ih i hi' (by
+        intro k hik hk
+        have := hl (k + 1) (by omega) (by simp; omega)
+        simpa using this)
+      simp only [List.getD_cons_succ, List.set_cons_succ, List.map_cons, List.flatten_cons,
+        List.append_assoc]
+      rw [this]
+
+/-- changing only `dropped` does not change the submitted blocks -/
+theorem map_submitted_set_dropped (l : List W) (i : Nat) :
+    (l.set i { (l.getD i {}) with dropped := true }).map (·.submitted) = l.map (·.submitted) := by
+  induction l generalizing i with
+  | nil => simp
+  | cons a t ih =>
+    cases i with
+    | zero => simp
+    | succ i =>
+      simp only [List.getD_cons_succ, List.set_cons_succ, List.map_cons]
+      rw [ih i]
+
+structure Inv (s : State) : Prop where
+  order : s.sock ++ s.buf = inOrder s
+  pref : ∀ i, isDropped s i = true → ∀ j, j < i → isDropped s j = true
+  noOver : ∀ i, i < s.writers.length → (s.writers.getD i {}).submitted ≠ [] →
+    ∀ j, j < i → isDropped s j = true
+
+theorem inv_init : Inv {} := by
+  refine ⟨rfl, ?_, ?_⟩
+  · intro i h; have := isDropped_lt h; simp at this
+  · intro i h; simp at h
+
+/-- what `hasTurn` gives under the prefix invariant -/
+theorem hasTurn_spec {s : State} {i : Nat} (h : hasTurn s i = true) :
+    i < s.writers.length ∧ isDropped s i = false ∧ (i = 0 ∨ isDropped s (i - 1) = true) := by
+  unfold hasTurn at h
+  simp only [Bool.and_eq_true, decide_eq_true_eq, Bool.not_eq_true', Bool.or_eq_true,
+    beq_iff_eq] at h
+  exact ⟨h.1.1, h.1.2, h.2⟩
+
+theorem all_before_dropped {s : State} (hinv : Inv s) {i : Nat} (h : hasTurn s i = true) :
+    ∀ j, j < i → isDropped s j = true := by
+  obtain ⟨_, _, h3⟩ := hasTurn_spec h
+  intro j hj
+  rcases h3 with h0 | hp
+  · omega
+  · by_cases hji : j = i - 1
+    · subst hji; exact hp
+    · exact hinv.pref (i - 1) hp j (by omega)
+
+theorem inv_step {s s' : State} {l : Label} (hinv : Inv s) (hs : step s l = some s') : Inv s' := by
+  cases l with
+  | issue =>
+    simp only [step, Option.some.injEq] at hs
+    subst hs
+    have hd : ∀ j, isDropped { s with writers := s.writers ++ [{}] } j = isDropped s j := by
+      intro j; simp only [isDropped, getD_append_default]
+    refine ⟨?_, ?_, ?_⟩
+    · have := hinv.order
+      simp only [inOrder] at this ⊢
+      simp [this]
+    · intro i hi j hj
+      rw [hd] at hi ⊢
+      exact hinv.pref i hi j hj
+    · intro i hi hsub j hj
+      simp only [getD_append_default] at hsub
+      rw [hd]
+      have hi' : i < s.writers.length := by
+        by_cases hlt : i < s.writers.length
+        · exact hlt
+        · rw [getD_of_le _ _ (Nat.le_of_not_lt hlt)] at hsub
+          exact absurd rfl hsub
+      exact hinv.noOver i hi' hsub j hj
+  | write i bs =>
+    simp only [step] at hs
+    split at hs
+    · rename_i ht
+      simp only [Option.some.injEq] at hs
+      subst hs
+      obtain ⟨hi, hal, _⟩ := hasTurn_spec ht
+      have hbefore := all_before_dropped hinv ht
+      have hd : ∀ j, isDropped { s with
+          writers := s.writers.set i { (s.writers.getD i {}) with
+            submitted := (s.writers.getD i {}).submitted ++ bs },
+          buf := s.buf ++ bs } j = isDropped s j := by
+        intro j
+        simp only [isDropped, getD_set]
+        split
+        · rename_i h; obtain ⟨rfl, _⟩ := h; rfl
+        · rfl
+      have hlater : ∀ k, i < k → k < s.writers.length → (s.writers.getD k {}).submitted = [] := by
+        intro k hik hk
+        apply Classical.byContradiction
+        intro hne
+        have := hinv.noOver k hk hne i hik
+        rw [hal] at this
+        cases this
+      refine ⟨?_, ?_, ?_⟩
+      · simp only [inOrder]
+        rw [flatten_set_append _ i hi bs hlater]
+        have := hinv.order
+        simp only [inOrder] at this
+        rw [← this, List.append_assoc]
+      · intro k hk j hj
+        rw [hd] at hk ⊢
+        exact hinv.pref k hk j hj
+      · intro k hk hsub j hj
+        rw [hd]
+        simp only [List.length_set] at hk
+        simp only [getD_set] at hsub
+        split at hsub
+        · rename_i h; obtain ⟨rfl, _⟩ := h
+          exact hbefore j hj
+        · exact hinv.noOver k hk hsub j hj
+    · cases hs
+  | flush i =>
+    simp only [step] at hs
+    split at hs
+    · simp only [Option.some.injEq] at hs
+      subst hs
+      refine ⟨?_, hinv.pref, hinv.noOver⟩
+      simpa [inOrder] using hinv.order
+    · cases hs
+  | drop i =>
+    simp only [step] at hs
+    split at hs
+    · rename_i ht
+      simp only [Option.some.injEq] at hs
+      subst hs
+      obtain ⟨hi, hal, _⟩ := hasTurn_spec ht
+      have hbefore := all_before_dropped hinv ht
+      have hd : ∀ j, isDropped { s with
+          writers := s.writers.set i { (s.writers.getD i {}) with dropped := true } } j
+            = (decide (j = i) || isDropped s j) := by
+        intro j
+        simp only [isDropped, getD_set]
+        split
+        · rename_i h; obtain ⟨rfl, _⟩ := h; simp
+        · rename_i h
+          have : j ≠ i := by intro hji; subst hji; exact h ⟨rfl, hi⟩
+          simp [this]
+      refine ⟨?_, ?_, ?_⟩
+      · simp only [inOrder, map_submitted_set_dropped]
+        exact hinv.order
+      · intro k hk j hj
+        rw [hd] at hk ⊢
+        simp only [Bool.or_eq_true, decide_eq_true_eq] at hk ⊢
+        rcases hk with rfl | hk
+        · exact Or.inr (hbefore j hj)
+        · exact Or.inr (hinv.pref k hk j hj)
+      · intro k hk hsub j hj
+        rw [hd]
+        simp only [List.length_set] at hk
+        simp only [Bool.or_eq_true, decide_eq_true_eq]
+        right
+        simp only [getD_set] at hsub
+        split at hsub
+        · rename_i h; obtain ⟨rfl, _⟩ := h
+          exact hbefore j hj
+        · exact hinv.noOver k hk hsub j hj
+    · cases hs
+  | sock n =>
+    simp only [step] at hs
+    split at hs
+    · simp only [Option.some.injEq] at hs
+      subst hs
+      refine ⟨?_, hinv.pref, hinv.noOver⟩
+      have := hinv.order
+      simp only [inOrder] at this ⊢
+      simp only [List.append_assoc, List.take_append_drop]
+      exact this
+    · cases hs
+
+theorem inv_run : ∀ (ls : List Label) (s s' : State), Inv s → run s ls = some s' → Inv s'
+  | [], s, s', hinv, h => by
+    simp only [run, Option.some.injEq] at h
+    subst h; exact hinv
+  | l :: ls, s, s', hinv, h => by
+    simp only [run] at h
+    split at h
+    · rename_i s1 hs1
+      exact inv_run ls s1 s' (inv_step hinv hs1) h
+    · cases h
+
+theorem inv_reachable {s : State} (h : Reachable s) : Inv s := by
+  obtain ⟨ls, hls⟩ := h
+  exact inv_run ls {} s inv_init hls
+
+/-- the state right after a turn-holding `drop i`: writer `i` is dropped -/
+theorem isDropped_after_drop {s s' : State} {i : Nat} (hs : step s (.drop i) = some s') :
+    isDropped s' i = true ∧ s'.writers.length = s.writers.length := by
+  simp only [step] at hs
+  split at hs
+  · rename_i ht
+    simp only [Option.some.injEq] at hs
+    subst hs
+    obtain ⟨hi, _, _⟩ := hasTurn_spec ht
+    simp [isDropped, hi]
+  · cases hs
+
+end Lts.Seq
+
+/-! ## Req typestate machine -/
+namespace Req
+
+theorem run_append (s : RState) (a b : List Op) :
+    run s (a ++ b) = (run s a).bind (fun s' => run s' b) := by
+  induction a generalizing s with
+  | nil => rfl
+  | cons o os ih =>
+    simp only [List.cons_append, run]
+    cases step s o with
+    | none => rfl
+    | some s1 => exact ih s1
+
+/-- any number of `as_reader` calls on a live request: at most one interim 100, nothing else -/
+theorem run_replicate_asReader (s : RState) (n : Nat) (ha : s.alive = true) :
+    run s (List.replicate n .asReader) =
+      some (if s.mustContinue = true ∧ 0 < n
+            then { s with mustContinue := false, emitted := s.emitted ++ [.interim100] } else s) := by
+  induction n generalizing s with
+  | zero => simp [run]
+  | succ n ih =>
+    simp only [List.replicate_succ, run, step, ha]
+    cases hmc : s.mustContinue with
+    | true =>
+      simp only [Bool.not_true, Bool.false_eq_true, if_false, if_true]
+      rw [ih _ rfl]
+      simp
+    | false =>
+      simp only [Bool.not_true, Bool.false_eq_true, if_false]
+      rw [ih _ ha]
+      simp [hmc]
+
+theorem step_dead (s : RState) (h : s.alive = false) (o : Op) : step s o = none := by
+  cases o <;> simp [step, h]
+
+/-- shape of `emitted` along any run that starts with nothing emitted -/
+def Shape (s : RState) : Prop :=
+  (s.emitted = [] ∨ (s.emitted = [.interim100] ∧ s.mustContinue = false)) ∨
+  (s.alive = false ∧ ∃ x, isFinal x = true ∧ (s.emitted = [x] ∨ s.emitted = [.interim100, x]))
+
+theorem shape_step {s s' : RState} {o : Op} (hq : Shape s) (hs : step s o = some s') : Shape s' := by
+  cases hal : s.alive with
+  | false => rw [step_dead s hal o] at hs; cases hs
+  | true =>
+    rcases hq with hq | ⟨hd, _⟩
+    · cases o with
+      | asReader =>
+        simp only [step, hal] at hs
+        cases hmc : s.mustContinue with
+        | true =>
+          simp only [hmc, Bool.not_true, Bool.false_eq_true, if_false, if_true,
+            Option.some.injEq] at hs
+          subst hs
+          rcases hq with he | ⟨_, hf⟩
+          · left; right; simp [he]
+          · rw [hmc] at hf; cases hf
+        | false =>
+          simp only [hmc, Bool.not_true, Bool.false_eq_true, if_false, Option.some.injEq] at hs
+          subst hs
+          exact Or.inl hq
+      | respond st =>
+        simp only [step, hal] at hs
+        split at hs
+        · simp only [Option.some.injEq] at hs
+          subst hs
+          right
+          refine ⟨rfl, .final st, rfl, ?_⟩
+          rcases hq with he | ⟨he, _⟩ <;> simp [he]
+        · cases hs
+      | intoWriter =>
+        simp only [step, hal] at hs
+        split at hs
+        · simp only [Option.some.injEq] at hs
+          subst hs
+          right
+          refine ⟨rfl, .rawWriter, rfl, ?_⟩
+          rcases hq with he | ⟨he, _⟩ <;> simp [he]
+        · cases hs
+      | upgrade st =>
+        simp only [step, hal] at hs
+        split at hs
+        · simp only [Option.some.injEq] at hs
+          subst hs
+          right
+          refine ⟨rfl, .final st, rfl, ?_⟩
+          rcases hq with he | ⟨he, _⟩ <;> simp [he]
+        · cases hs
+      | drop =>
+        simp only [step, hal] at hs
+        cases hw : s.writerSlot with
+        | true =>
+          simp only [hw, Bool.not_true, Bool.false_eq_true, if_false, if_true,
+            Option.some.injEq] at hs
+          subst hs
+          right
+          refine ⟨rfl, .final 500, rfl, ?_⟩
+          rcases hq with he | ⟨he, _⟩ <;> simp [he]
+        | false =>
+          simp only [hw, Bool.not_true, Bool.false_eq_true, if_false, Option.some.injEq] at hs
+          subst hs
+          left
+          rcases hq with he | ⟨he, hm⟩
+          · exact Or.inl he
+          · exact Or.inr ⟨he, hm⟩
+    · rw [hal] at hd; cases hd
+
+theorem shape_run : ∀ (ops : List Op) (s s' : RState), Shape s → run s ops = some s' → Shape s'
+  | [], s, s', hq, h => by
+    simp only [run, Option.some.injEq] at h
+    subst h; exact hq
+  | o :: os, s, s', hq, h => by
+    simp only [run] at h
+    split at h
+    · rename_i s1 hs1
+      exact shape_run os s1 s' (shape_step hq hs1) h
+    · cases h
+
+theorem pre_nil_of_tail {l : List Emit} (h : Emit.interim100 ∉ l.tail) :
+    ∀ pre post, l = pre ++ [.interim100] ++ post → pre = [] := by
+  intro pre post hl
+  cases pre with
+  | nil => rfl
+  | cons a t => subst hl; simp at h
+
+theorem shape_concl {s : RState} (hq : Shape s) :
+    (s.emitted.filter (· == .interim100)).length ≤ 1 ∧
+    (∀ pre post, s.emitted = pre ++ [.interim100] ++ post → pre = []) := by
+  rcases hq with (he | ⟨he, _⟩) | ⟨_, x, hx, he | he⟩
+  · rw [he]; exact ⟨by simp, pre_nil_of_tail (by simp)⟩
+  · rw [he]; exact ⟨by simp, pre_nil_of_tail (by simp)⟩
+  · rw [he]
+    refine ⟨?_, pre_nil_of_tail (by simp)⟩
+    cases x <;> simp
+  · rw [he]
+    refine ⟨?_, pre_nil_of_tail ?_⟩
+    · cases x with
+      | interim100 => cases hx
+      | final st => simp
+      | rawWriter => simp
+    · cases x with
+      | interim100 => cases hx
+      | final st => simp
+      | rawWriter => simp
+
+end Req
+
 end TH
